@@ -38,6 +38,13 @@ func c08SeqParts() []sup.Part {
 	r := ex
 	r.Profile = kv.Uniform(3).With(kv.KPurge, 1)
 	r.Steps = 60
+	r.ExtraEvery = func(s *kv.Sim, i int) {
+		// one third into the history the earliest-registered feed of a collection is stopped by its terminator:
+		// the feeds registered after it must keep receiving everything
+		if i == 20 {
+			s.EndFirstFeed(0, s.R.Intn(len(s.Env.Buckets[0].Colls[0])))
+		}
+	}
 	return []sup.Part{
 		exhaustivePart("seq-exhaustive", ex),
 		randomPart("seq-random", 800, 12000, r),
